@@ -292,6 +292,28 @@ def _mk_seq_any_tagged(**s):
     return av
 
 
+# OPTIONAL constructed members: "absent" and "present but empty" are different abstract values
+SEQ_OPTC = T("SEQ", comps=[("a", INT, "req", None),
+                           ("i", T("SEQ", comps=[("x", INT, "opt", None)]), "opt", None),
+                           ("l", T("SEQOF", elem=INT).tagged(("I", "C", 0)), "opt", None),
+                           ("u", T("SET", comps=[("y", BOOL, "def", False)]), "opt", None)],
+             name="SEQ{a INT,i SEQ{x INT?}?,l [0]I SEQOF INT?,u SET{y BOOL=F}?}")
+
+
+def _mk_seq_optc(**s):
+    av = {"a": s["i0"]}
+    if s["hi"]:
+        av["i"] = {"x": s["i1"]} if s["hx"] else {}
+    if s["hl"]:
+        av["l"] = [s["i1"], 5][: s["k"]]
+    if s["hu"]:
+        av["u"] = {"y": True} if s["f0"] else {}
+    return av
+
+
+P_SEQ_OPTC = {"i0": SMALL, "i1": I(0, 1), "hi": B, "hx": B, "hl": B, "k": I(0, 2), "hu": B, "f0": B}
+
+
 def constructed():
     C = []
     C.append(Entry("seq", _seq_basic("SEQ"), P_SEQ_BASIC, _mk_seq_basic, ["constructed", "univ", "record"]))
@@ -308,6 +330,7 @@ def constructed():
     C.append(Entry("seqof_choice", T("SEQOF", elem=CH), dict(P_CHOICE, k=I(0, 2)), lambda **s: [_mk_choice(**s), ("x", 7)][: s["k"]], ["constructed", "list", "nested", "choice"]))
     C.append(Entry("seq_any", SEQ_ANY, P_SEQ_ANY, _mk_seq_any, ["constructed", "record", "any"]))
     C.append(Entry("seq_any.E", SEQ_ANY_TAGGED, dict(P_SEQ_ANY, hv=B), _mk_seq_any_tagged, ["constructed", "record", "any"]))
+    C.append(Entry("seq_optc", SEQ_OPTC, P_SEQ_OPTC, _mk_seq_optc, ["constructed", "record", "nested"], shard=("hi", "hl")))
     C.append(Entry("seqof_empty_elem", T("SEQOF", elem=T("SEQOF", elem=NULL)), {"k": I(0, 2), "k2": I(0, 2)}, lambda **s: [[None] * s["k2"], []][: s["k"]], ["constructed", "list", "nested", "univ"]))
     return C
 
